@@ -173,9 +173,10 @@ func main() {
 		}
 		atomic.AddInt64(&ops[3], 1)
 	})
-	// target additions and removals, two goroutines fighting over the same names
-	spawn(2, func(rr *vc.Rand) {
-		name := rr.Pick([]string{"t2", "t3"})
+	// target additions and removals, three goroutines fighting over the same names - "main" included, so that the
+	// connection serving the calls in flight is closed under them and the services are handed over between targets
+	spawn(3, func(rr *vc.Rand) {
+		name := rr.Pick([]string{"t2", "t3", "main", "main"})
 		if rr.Bool() {
 			router.Add(name, dialTarget)
 		} else {
